@@ -85,7 +85,9 @@ AlphaMarker ==
   << EvBD, EvVer(0), EvED, EvNull, EvInt("pint", "1"), EvStr(<<97>>), EvList, EvMap, EvEdge, EvEnd,
      EvMark("a"), EvRef("a"), EvMark("b"), EvRef("b"), EvRT("a"),
      EvIdX("OnMarker", "", 0, TRUE), EvIdX("OnReferenceLocal", "a", 1, FALSE),
-     EvNan, EvABegin("string"), EvChunk(1, FALSE), EvData(<<99>>) >>
+     EvNan, EvABegin("string"), EvChunk(1, FALSE), EvData(<<99>>),
+     (* what may not be marked, in whole and in chunked form *)
+     EvSArr("rref", <<97>>), EvABegin("rref") >>
 
 (* C15: every DataEventReceiver method with every argument form that the   *)
 (* validator treats specially (nil big numbers, NaNs in every carrier).    *)
